@@ -20,7 +20,7 @@ import core
 import world as W
 import proxyx
 
-SETS = ["1", "1:3", "*", "2:*", "3:1", "1,3", "4", "1:9", "9:*", "*:*", "99999999999", "1:2,2:3"]
+SETS = ["1", "1:3", "*", "2:*", "3:1", "1,3", "4", "1:9", "9:*", "*:*", "99999999999", "1:2,2:3", "0", "0:2"]
 STATES = ["auth", "sel", "exam", "selempty"]
 BOXES = ["inbox", "INBOX", "work", "nosel", "nosel/child", "gone", "missing", "a/b/c", "\"sp ace\""]
 
@@ -214,7 +214,7 @@ def run(ctx):
     ok = ctx.prove("Properties/C06.v")
     outcome_level(ctx)
     nb = 32 if ctx.thorough else 16
-    per = 60 if ctx.thorough else 14
+    per = 60 if ctx.thorough else 40
     jobs = [(ctx.rng.randrange(1 << 30), per, i % 2 == 1) for i in range(nb)]
     with mp.get_context("fork").Pool(min(core.NPROC, nb)) as pool:
         allres = pool.map(probe_batch, jobs, chunksize=1)
